@@ -421,6 +421,85 @@ Definition run (b : bits) (sched : list nat) (c : cfg) : cfg := fold_left (step 
 End P6.
 
 (* ================================================================================================
+   P3 — coroutine mutex, hand-off of the protected data (mutex.h:148-233).  The data of the critical section and the
+        owner-private `_queue` are one non-atomic location DATA.  Slot values (locked?, number of requests stacked
+        above the doorman); the request nodes themselves are P2 (instance bits_mutex).
+          T0      ready(): strong CAS nullptr -> doorman (mutex.h:185); success = owner; failure -> subscribe
+          TS      subscribe(): CAS push (mutex.h:200).  prev != nullptr: the coroutine is suspended, the request will be
+                  served by an unlocking thread, this thread is free again.  prev == nullptr: the mutex was free and is now
+                  held by this thread, which must still install the doorman:
+          TB      build_queue(aw): exchange(doorman) (mutex.h:223), taking the requests stacked meanwhile
+          TC q    critical section (q = length of the private queue), accesses DATA
+          TU q    unlock(): q = 0: strong CAS doorman -> nullptr (mutex.h:157), on failure build_queue(doorman) and hand
+                  over; q > 0: hand over to the head of `_queue`.  The resumed coroutine runs its critical section on the
+                  unlocking thread (or is moved elsewhere under that mechanism's own synchronisation). *)
+Module P3.
+Definition M : loc := 0.
+Definition DATA : loc := 1.
+Record bits := { ta : bool; tr : bool; tfa : bool;       (* ready() CAS success acquire/release part, failure *)
+                 sa : bool; sr : bool;                    (* subscribe CAS success *)
+                 ua : bool; ur : bool;                    (* unlock CAS success *)
+                 xa : bool; xr : bool }.                  (* build_queue exchange *)
+Definition bits_of (o : orders) : bits :=
+  {| ta := is_acq (mutex_try_cas o); tr := is_rel (mutex_try_cas o); tfa := is_acq (mutex_try_cas_fail o);
+     sa := is_acq (mutex_sub_cas o); sr := is_rel (mutex_sub_cas o);
+     ua := is_acq (mutex_unlock_cas o); ur := is_rel (mutex_unlock_cas o);
+     xa := is_acq (mutex_bq_xchg o); xr := is_rel (mutex_bq_xchg o) |}.
+(* the free-mutex path of subscribe acquires either at its CAS or at the exchange that installs the doorman *)
+Definition ok (b : bits) : bool := ta b && ur b && (xa b || sa b).
+
+Inductive pc := T0 | TS | TB | TC (q : nat) | TU (q : nat).
+Record thr := Th { tp : pc; ttv : tview }.
+Record cfg := Cfg { ths : list thr; mm : mem (bool * nat) }.
+Definition init (n : nat) : cfg := Cfg (repeat (Th T0 tv0) n) (mem0 (false, 0)).
+
+Definition upd (c : cfg) (t : nat) (p : pc) (tv : tview) (m : mem (bool * nat)) : cfg :=
+  Cfg (set_nth (ths c) t (Th p tv)) m.
+
+Definition step (b : bits) (c : cfg) (ch : nat * nat) : cfg :=
+  let '(t, arg) := ch in
+  match nth_error (ths c) t with
+  | None => c
+  | Some (Th T0 tv) =>
+      match arg with
+      | 0 => match am (mm c) M with
+             | Msg (false, _) _ :: _ =>
+                 match rmw (ta b) (tr b) M (fun _ => (true, 0)) tv (mm c) with
+                 | Some (_, tv', m) => upd c t (TC 0) tv' m
+                 | None => c end
+             | _ => c end
+      | S p => match at_read (tfa b) M p tv (mm c) with
+               | Some ((true, _), tv') => upd c t TS tv' (mm c)       (* observed "locked": the strong CAS fails *)
+               | _ => c end
+      end
+  | Some (Th TS tv) =>
+      match rmw (sa b) (sr b) M (fun v : bool * nat => if fst v then (true, S (snd v)) else (true, 0)) tv (mm c) with
+      | Some ((true, _), tv', m) => upd c t T0 tv' m                   (* queued; coroutine suspended *)
+      | Some ((false, _), tv', m) => upd c t TB tv' m                  (* found it unlocked *)
+      | None => c end
+  | Some (Th TB tv) =>
+      match rmw (xa b) (xr b) M (fun _ => (true, 0)) tv (mm c) with
+      | Some ((_, n), tv', m) => upd c t (TC n) tv' m
+      | None => c end
+  | Some (Th (TC q) tv) => let '(tv', m) := na_write tv (mm c) DATA in upd c t (TU q) tv' m
+  | Some (Th (TU (S q)) tv) => upd c t (TC q) tv (mm c)
+  | Some (Th (TU 0) tv) =>
+      match am (mm c) M with
+      | Msg (true, 0) _ :: _ =>
+          match rmw (ua b) (ur b) M (fun _ => (false, 0)) tv (mm c) with
+          | Some (_, tv', m) => upd c t T0 tv' m
+          | None => c end
+      | _ =>
+          match rmw (xa b) (xr b) M (fun _ => (true, 0)) tv (mm c) with
+          | Some ((_, S n), tv', m) => upd c t (TC n) tv' m
+          | Some ((_, 0), tv', m) => upd c t (TU 0) tv' m
+          | None => c end
+      end
+  end.
+Definition run (b : bits) (sched : list (nat * nat)) (c : cfg) : cfg := fold_left (step b) sched c.
+End P3.
+
+(* ================================================================================================
    engine "tsan": what the theorems predict for the real-thread ThreadSanitizer scenarios of harness/tsan_c03.cpp
    (op = [scenario; iterations], observation [0] = no integrity failure; a TSan report aborts the run and is an
    observation "CRASH" that no model output matches).  Supporting evidence only: the tie of C03 is the translator. *)
